@@ -224,6 +224,10 @@ def language_sites():
         ("lang:enum-ctor-arity", "", "Bv(1, 2)"),
         ("lang:namespace-missing", "import \"__fs.gdn\" as fs", "fs::nosuchv(1)"),
         ("lang:dict-key-type", "", "Dict[1 => 2]"),
+        ("lang:dict-key-type-later-entry", "", "Dict[\"a\" => 1, 2 => 3, \"c\" => 4]"),
+        ("lang:list-append-type-later", "", "[1, 2].append(3).get(\"x\")"),
+        ("lang:struct-field-type-later-field", "", "Sv{ x: 1, y: 2 }"),
+        ("lang:tuple-field-call", "", "(1, \"a\", 3).nosuchmethodv()"),
         ("lang:return-toplevel", "", "twov(1, return 5)"),
     ]
 
